@@ -22,6 +22,8 @@ def cases(rng, quick):
             for en in ENVC:
                 for t in (TOC if not quick else [rng.choice(TOC)]):
                     out.append({"entry": e, "malformed": "none", "cfg": [{"args": a, "env": en, "timeout": t, "extra": rng.random() < 0.5}]})
+        for v in range(6):
+            out.append({"entry": e, "malformed": "invalidJson", "variant": v, "cfg": [{"args": "plain", "env": "absent", "timeout": "absent"}]})
         for m in ("missingFile", "invalidJson", "unknownServer"):
             for n in (1, 2):
                 out.append({"entry": e, "malformed": m, "cfg": [{"args": rng.choice(ARGC), "env": rng.choice(ENVC), "timeout": rng.choice(TOC)} for _ in range(n)]})
